@@ -714,6 +714,12 @@ def check_c04(an):
         want = 0 if cfg.skip == 1 else 1
         if sim["n_lone"] != want:
             out.append(V("C04", "initial_start_reads", "%d start timestamps taken outside samples, expected %d (skip_ext_time=%s)" % (sim["n_lone"], want, cfg.skip)))
+    # elapsed time runs from just before the first sample: the anchoring start reading precedes every generation / call event
+    init, _n = an.initial_start()
+    if init is not None and cfg.skip != 1:
+        first = next((ev for ev in run.events if ev.kind in (E.GEN, E.COUNT, E.CALL_BEGIN)), None)
+        if first is not None and first.seq < init.seq:
+            out.append(V("C04", "initial_start_late", "the start timestamp that anchors elapsed time was taken after the run had begun generating / calling", [first, init]))
     for tv in an.worker_threads():
         if len(tv.sample_windows) != len(an.rounds):
             out.append(V("C04", "ragged_rounds", "thread %d took %d samples, others %d" % (tv.tid, len(tv.sample_windows), len(an.rounds))))
@@ -755,6 +761,16 @@ def check_c19(an):
         if sim["final_size"] is not None and rep["sample_size"] != sim["final_size"]:
             out.append(V("C19", "final_size", "reported sample size %d, the rule ends at %d" % (rep["sample_size"], sim["final_size"])))
         nrec = len(rep["samples"])
+        T_ = max(1, cfg.eff_T)
+        recr = recorded_rounds(an)
+        for j, r in enumerate(recr):
+            wins = an.rounds[r]
+            models = [model_tally(window_alloc_events(w)) for w in wins.values()]
+            reps = [rep["alloc"].get(j * T_ + i) for i in range(T_)]
+            if not _match_multiset(models, reps):
+                out.append(V("C19", "alloc_data_of_discarded_round", "recorded round %d carries allocation records %s that are not those of its own samples %s (data of a discarded tuning round survived)" % (
+                    j, reps, [model_key(m) for m in models])))
+                break
         bad_keys = [k for k in rep["alloc"] if k >= nrec]
         if bad_keys:
             out.append(V("C19", "stale_alloc_data", "allocation records for sample indices %s beyond the %d recorded samples" % (bad_keys, nrec)))
@@ -959,6 +975,15 @@ def check_c05_chain(an):
         if sorted(exp) != sorted(got):
             out.append(V("C05", "recorded_vs_clock", "recorded round %d: (duration, per-input counts) %s, clock readings and count events give %s" % (j, sorted(got), sorted(exp)), [w.s for w in wins.values()]))
         checked += len(got)
+    # the allocation record attached to each recorded sample must be that of its own window (not of a discarded round)
+    for j, r in enumerate(rec):
+        wins = an.rounds[r]
+        models = [model_tally(window_alloc_events(w)) for w in wins.values()]
+        reps = [rep["alloc"].get(j * T + i) for i in range(T)]
+        if not _match_multiset(models, reps):
+            out.append(V("C05", "alloc_record_of_other_sample", "recorded round %d: allocation records %s are not those of the samples' own timed sections %s" % (
+                j, reps, [model_key(m) for m in models]), [w.s for w in wins.values()]))
+            break
     # count_inputs_as: per-sample value = sum of the inputs themselves / s
     for kind in cfg.countas:
         for j, r in enumerate(rec):
